@@ -155,6 +155,7 @@ class Env:
         self.code = code  # concrete bytes of the running code, when known
         self.tag = t
         self.extcodesize = z3.Function("extcodesize" + t, W, W)
+        self.extcode = z3.Function("extcode" + t, W, z3.ArraySort(W, B8))
         self.balance = z3.Function("balance" + t, W, W)
         self.blockhash = z3.Function("blockhash" + t, W, W)
         self.extcodehash = z3.Function("extcodehash" + t, W, W)
@@ -288,6 +289,10 @@ def exec_op(op, a, w):
         rd = w.retdata
         w2 = w.replace(mem=w.mem.copy_from(a[0], lambda i: z3.Select(rd, a[1] + i), a[2]))
         return ("guard", over), w2
+    if op == "extcodecopy":  # addr, dst, src, len : bytes of another account's code (unconstrained, zero past its size)
+        code_of = env.extcode(a[0])
+        size = env.extcodesize(a[0])
+        return None, w.replace(mem=w.mem.copy_from(a[1], lambda i: z3.If(z3.And(z3.UGE(a[2] + i, a[2]), z3.ULT(a[2] + i, size)), z3.Select(code_of, a[2] + i), z3.BitVecVal(0, 8)), a[3]))
     if op == "codecopy":
         if env.code is None:
             raise Unsupported("codecopy without concrete code")
@@ -352,7 +357,7 @@ def exec_op(op, a, w):
     raise Unsupported("opcode " + op)
 
 
-def enumerate_values(expr, pc, limit=64, timeout_ms=5000):
+def enumerate_values(expr, pc, limit=64, timeout_ms=20000):
     """all values `expr` can take under `pc` (for computed jumps / table reads); None if more than `limit`"""
     s = z3.Solver()
     s.set("timeout", timeout_ms)
